@@ -280,7 +280,8 @@ class DemoReplayer:
         outside the model's universe - a random draw - there is nothing to collide with: checked here)."""
         mine = self.issued[-1]
         self.monitor = []
-        if oid in mine:
+        if oid in mine and u64(oid) >= self.noid:
+            # (inside the universe TLC decides: an id that was stored and then removed by a pack may come again)
             self.monitor.append('new_oid returned %s twice' % oid.hex())
         mine.add(oid)
         for i, s in enumerate(self.raw):
@@ -400,12 +401,21 @@ class DemoReplayer:
             mo['ser'] = {o: {t: a for t, a in dict(row).items() if a['k'] != 'rev' or t in visible.get(o, ())}
                          for o, row in mo['ser'].items()}
             mo['revs'] = {o: tuple(t for t in row if t in visible.get(o, ())) for o, row in mo['revs'].items()}
+        def _blocked(signum, frame):
+            raise _Blocked()
+        old_handler = signal.signal(signal.SIGALRM, _blocked)
+        signal.setitimer(signal.ITIMER_REAL, self.opts.get('query_timeout', 30))
         try:
             real = self.observe(mo, lens)
+        except _Blocked:
+            return ['queries did not return within the watchdog time (a query loops or blocks)'], None
         except Exception as ex:
             import traceback
             tb = traceback.extract_tb(ex.__traceback__)[-1]
             return ['query raised %s at %s:%s (%s)' % (type(ex).__name__, os.path.basename(tb.filename), tb.name, str(ex)[:120])], None
+        finally:
+            signal.setitimer(signal.ITIMER_REAL, 0)
+            signal.signal(signal.SIGALRM, old_handler)
         bounds = []
         acc = 0
         for n, ln in enumerate(lens):
@@ -502,8 +512,18 @@ def replay_behaviour(job):
             if not mm:
                 what = 'obs'
                 mm, real = rp.compare(step['state']['obs'], layers)
+                if mm and name == 'Pack' and res.get('cause', 'none') != 'none':
+                    # TLC: the code as it is may have lost revisions here (the pack failed half way); the real
+                    # storage did: a deviation with TLC's cause.  What the changes hold now depends on Python's
+                    # set order, so the behaviour ends here.
+                    result['genuine'].append({'cause': res['cause'], 'step': i, 'prefix': result['sig'][:i + 1],
+                                              'detail': ['pack raised %s and the committed changes no longer read as before' % res['out']] + mm[:3]})
+                    result['steps'] += 1
+                    actions[name] += 1
+                    break
             if mm:
                 result['mismatch'] = {'step': i, 'action': name, 'args': repr(args), 'what': what, 'detail': mm[:4],
+                                      'model_out': norm(step['state']['res']).get('out'),
                                       'prefix': result['sig'][:i + 1], 'layers': len(layers)}
                 break
             result['steps'] += 1
